@@ -26,7 +26,7 @@ def run(ctx):
     rule_escape(ctx, repo, eng)
     # the bech32 acceptance rules are what refuses other chains' and malformed segwit strings
     from . import c11
-    for fn, rid in ((c11.rule_segwit_rules, 'C12.R3'), (c11.rule_convertbits, 'C12.R2')):
+    for fn, rid in ((c11.rule_segwit_rules, 'C12.R3'), (c11.rule_convertbits, 'C12.R2'), (c11.rule_decode_rules, 'C12.R1')):
         fn(ctx, repo)
         ctx.rules[-1].id = rid
         for i in ctx.rules[-1].instances:
